@@ -338,6 +338,7 @@ def ob_prune_coverage(run, oid):
 
 
 def check(run):
+    D.ob_state_mutations(run, "O8.9", ['consensus::pool::PoolImpl', 'consensus::pool::finality_tracker::FinalityTracker'], 'finality status, watermarks and per-slot state may only change by the reviewed transitions; anything else loses or resurrects decided slots')
     ob_no_downgrade(run, "O8.1")
     ob_direct_finalization(run, "O8.2")
     ob_watermarks(run, "O8.3")
